@@ -1678,7 +1678,41 @@ func ruleInputOnlyThroughReader(c *Check, p *Program, h *ssa.Function) {
 			return false
 		}
 		call, isC := ex.Tuple.(*ssa.Call)
-		return isC && calleeIs(call, "os", "Open")
+		if !isC {
+			return false
+		}
+		if calleeIs(call, "os", "Open") {
+			return true
+		}
+		// a helper of the command that opens the file and returns it among its results
+		hf := staticCallee(call)
+		if hf == nil || hf.Pkg != h.Pkg || len(hf.Blocks) == 0 {
+			return false
+		}
+		all, any := true, false
+		allInstrs(hf, func(in ssa.Instruction) {
+			r, isR := in.(*ssa.Return)
+			if !isR || ex.Index >= len(r.Results) {
+				return
+			}
+			rv := strip(r.Results[ex.Index])
+			if isNilConst(rv) {
+				return
+			}
+			e2, ok2 := rv.(*ssa.Extract)
+			c2, isC2 := (ssa.Value)(nil), false
+			if ok2 && e2.Index == 0 {
+				var cc *ssa.Call
+				cc, isC2 = e2.Tuple.(*ssa.Call)
+				if isC2 && calleeIs(cc, "os", "Open") {
+					any = true
+					return
+				}
+			}
+			_ = c2
+			all = false
+		})
+		return all && any
 	}
 	bufLen := func(v ssa.Value) (int64, bool) {
 		sl, ok := v.(*ssa.Slice)
